@@ -20,22 +20,6 @@ Ev  == Tr[l]
 
 Rec(S) == IF S = {} THEN TRUE ELSE TLCSet(1, TLCGet(1) \cup {<<tid, l, c>> : c \in S})
 
-\* the law: after k consecutive failures the wait is min(max, min * mult^(k-1)); evaluated exactly on rationals
-\* num/den, stopping at the cap (mult >= 1 makes the sequence monotone, so once capped always capped)
-RECURSIVE Law(_)
-Law(k) == IF k = 1 THEN (IF Cfg.mn >= Cfg.mx THEN [cap |-> TRUE, num |-> 0, den |-> 1]
-                          ELSE [cap |-> FALSE, num |-> Cfg.mn, den |-> 1])
-          ELSE LET r == Law(k - 1) IN
-               IF r.cap THEN r
-               ELSE IF r.num * Cfg.p >= Cfg.mx * r.den * Cfg.q THEN [cap |-> TRUE, num |-> 0, den |-> 1]
-               ELSE [cap |-> FALSE, num |-> r.num * Cfg.p, den |-> r.den * Cfg.q]
-\* a wait of zero is "no waiting": the loop then sleeps its ordinary period
-Match(k, req) ==
-  IF k = 0 THEN req = Cfg.norm
-  ELSE LET r == Law(k) IN
-       IF r.cap THEN (IF Cfg.mx > 0 THEN req = Cfg.mx ELSE req = Cfg.norm)
-       ELSE IF r.num > 0 THEN req * r.den = r.num ELSE req = Cfg.norm
-
 TraceInit ==
   /\ tid \in 1..Len(Traces) /\ l = 2
   /\ Init
@@ -55,7 +39,8 @@ TWtE   == Ev.e = "wtE" /\ ga' = GWaitEnterA(ga, Ev.a) /\ g' = GWaitEnterG(g, ga,
 TThS   == Ev.e = "thS" /\ UNCHANGED <<g, ga>> /\ Adv
 TRun   == Ev.e = "run" /\ UNCHANGED <<g, ga>> /\ Adv
 TDo    == Ev.e = "do" /\ Rec(GDoBad(g)) /\ g' = GDoG(g, Ev.out) /\ UNCHANGED ga /\ Adv
-TSleep == Ev.e = "sleep" /\ Rec(GSleepBad(g, Match(g.k, Ev.req))) /\ UNCHANGED <<g, ga>> /\ Adv
+\* the law (Runnable.tla: Pause / Match) with the parameters of this trace, loop sleep included (Cfg.norm)
+TSleep == Ev.e = "sleep" /\ Rec(GSleepBad(g, Match(Cfg, g.k, Rat(Ev.req)))) /\ UNCHANGED <<g, ga>> /\ Adv
 TUntil == Ev.e = "until" /\ g' = GUntilG(g) /\ ga' = GUntilA(ga) /\ Adv
 TFin   == Ev.e = "fin" /\ Rec(GFinBad(g, ga)) /\ g' = GFinG(g, ga) /\ UNCHANGED ga /\ Adv
 TDone  == Ev.e = "done" /\ Rec(GDoneBad(g)) /\ g' = GDoneG(g) /\ UNCHANGED ga /\ Adv
